@@ -18,7 +18,7 @@ PLAN = {
     'C04': dict(mix='g1,g2,g5,g6,g6,g8', quick=40000, thorough=2000000, extra=['--probe-mode', 'all']),
     'C05': dict(mix='g1,g2,g5,g6', quick=40000, thorough=2000000, extra=['--probe-mode', 'perturb']),
     'C07': dict(mix='g8,g8,g2,g3', quick=30000, thorough=1500000, extra=['--probe-mode', 'fen']),
-    'C17': dict(mix='g1,g2,g2,g9,g9', quick=30000, thorough=1500000, extra=['--probe-mode', 'eval', '--no-queries']),
+    'C17': dict(mix='g1,g2,g9,g9,g10,g10,g10', quick=30000, thorough=1500000, extra=['--probe-mode', 'eval', '--no-queries']),
 }
 
 PERFT_CFG = 'INIT Init\nNEXT Next\nCHECK_DEADLOCK FALSE\nCONSTANT Deep = %s\n'
